@@ -131,6 +131,7 @@ Verdict(i) ==
                             /\ (onEdge \/ delayedLock \/ post.lds = exp.lds)
              IN F(IF istxn /\ ~e.res.ok THEN "txn-atomic" ELSE "delay-state", ok)
         ELSE {})
+  \cup (IF "age_ms" \in DOMAIN e.cmd THEN F("ttl-not-early", TTLMayExpire(e.cmd.ttl_ms, e.cmd.age_ms)) ELSE {})
   \cup (IF "delayed" \in DOMAIN e.post /\ faulted
         THEN F(IF istxn THEN "txn-fault-atomic" ELSE "fault-atomic", post.delayed \subseteq pre.delayed /\ post.lds = pre.lds)
         ELSE {})
